@@ -170,24 +170,31 @@ def row_partition(labels):
     return sorted(blocks.values())
 
 
-def h_fit(ctx, cls, n, n_nan, ypat, params, companions, props):
+def h_fit(ctx, cls, n, n_nan, ypat, params, companions, props, dev_ypat=None):
     try:
-        return _h_fit(ctx, cls, n, n_nan, ypat, params, companions, props)
+        return _h_fit(ctx, cls, n, n_nan, ypat, params, companions, props, dev_ypat)
     except Violation as v:
         v.extra = dict(v.extra or {}, cls=cls)
         raise
 
 
-def _h_fit(ctx, cls, n, n_nan, ypat, params, companions, props):
+def _h_fit(ctx, cls, n, n_nan, ypat, params, companions, props, dev_ypat=None):
     X, xs = make_X(ctx, n, n_nan, companions)
     N = n + n_nan
     y = pd.Series(list(ypat)[:N], index=X.index)
     snapX, snapy = snapshot_frame(X), list(y)
     obj = build(cls, params, companions)
     is_carver = "Carver" in cls
+    fit_kw, dev = {}, None
+    if dev_ypat is not None and is_carver:
+        X_dev = X.iloc[::-1].copy()
+        X_dev.index = [500 + i for i in range(N)]
+        y_dev = pd.Series(list(dev_ypat)[:N], index=X_dev.index)
+        fit_kw, dev = dict(X_dev=X_dev, y_dev=y_dev), (X_dev, y_dev)
+        snapD = snapshot_frame(X_dev)
     with rebound(ctx, ["R1", "R2"]):
         try:
-            obj.fit(X, y)
+            obj.fit(X, y, **fit_kw)
             fitted = True
         except Violation:
             raise
@@ -239,6 +246,8 @@ def _h_fit(ctx, cls, n, n_nan, ypat, params, companions, props):
         if "C07" in props or "C08" in props:
             ctx.require(frame_unchanged(X, snapX), "C07.input-mutated", f"{cls}: fit/transform modified the caller's X (copy=True)")
             ctx.require(list(y) == snapy, "C07.input-mutated", "y modified")
+            if dev is not None:
+                ctx.require(frame_unchanged(dev[0], snapD), "C07.input-mutated", f"{cls}: fit modified the caller's X_dev (copy=True)")
             ctx.require(list(out.index) == list(X.index) and list(out.columns) == list(X.columns), "C07.index-columns", "output index/columns differ from X")
             if companions:
                 ctx.require(list(out["extra"]) == list(X["extra"]), "C07.non-feature-column", "non-feature column changed")
@@ -268,6 +277,8 @@ def _h_fit(ctx, cls, n, n_nan, ypat, params, companions, props):
                         ctx.require(col[i] <= col[j], "C03.not-monotone", f"x{i} <= x{j} but labels {col[i]!r} > {col[j]!r}")
             if "C02" in props and is_carver:
                 check_c02(ctx, obj, col, n, n_nan, list(y), params)
+                if dev is not None:
+                    check_c02_dev(ctx, obj, col, list(y), dev, params)
             if "C09" in props and not is_carver:
                 check_c09(ctx, cls, obj, col, n, n_nan, params)
         # ------------------------------------------------------------------ C07: coherence of fit_transform / repeated / subset transforms
@@ -321,7 +332,7 @@ def _h_fit(ctx, cls, n, n_nan, ypat, params, companions, props):
                     ctx.require(False, "C05.internal-error", f"transform(NaN) raised {type(e).__name__}: {str(e)[:100]}")
         # ------------------------------------------------------------------ C01: end-to-end optimality against a brute-force oracle
         if "C01" in props and is_carver and cls != "MulticlassCarver":
-            check_c01(ctx, cls, obj, X, y, xs, n, n_nan, params, kept, col)
+            check_c01(ctx, cls, obj, X, y, xs, n, n_nan, params, kept, col, dev=dev)
         # ------------------------------------------------------------------ C06: JSON round trip on this path's fitted object
         if "C06" in props:
             check_c06(ctx, cls, obj, X, col, kept, is_carver)
@@ -352,6 +363,42 @@ def check_c02(ctx, obj, col, n, n_nan, y, params):
         ctx.require(n_missing_out == 0, "C02.nan-left", "dropna=True but the output has missing values")
     else:
         ctx.require(n_missing_out == n_nan and all(isinstance(c, float) and c != c for c in col[n:]), "C02.nan-not-preserved", "dropna=False: missing values not preserved in place")
+
+
+def check_c02_dev(ctx, obj, col, y, dev, params):
+    """C02 on X_dev: same label set, each label >= min_freq_mod frequent, same ranking by target rate."""
+    Xd, yd = dev
+    outd = list(obj.transform(Xd)["f"])
+    ydl = list(yd)
+    mfm = obj.min_freq_mod
+
+    def table(labels_col, ys):
+        t = {}
+        for l, v in zip(labels_col, ys):
+            if isinstance(l, float) and l != l:
+                continue
+            key = next((k for k in t if bool(eqv(k, l))), None)
+            if key is None:
+                key = l
+                t[key] = []
+            t[key].append(v)
+        return t
+
+    tt, td = table(col, y), table(outd, ydl)
+    ctx.require(len(tt) == len(td) and all(any(bool(eqv(k, k2)) for k2 in td) for k in tt), "C02.dev-label-set", f"labels on X_dev {list(td)} differ from the labels on X {list(tt)}")
+    nd = sum(len(v) for v in td.values())
+    for k, v in td.items():
+        ctx.require(len(v) / nd >= mfm, "C02.constraint-violated", f"label {k!r} carried by {len(v)}/{nd} rows of X_dev < min_freq_mod={mfm!r}")
+    keys = list(tt)
+    for i in range(len(keys)):
+        for j in range(i + 1, len(keys)):
+            a, b = keys[i], keys[j]
+            kb_a = next(k2 for k2 in td if bool(eqv(k2, a)))
+            kb_b = next(k2 for k2 in td if bool(eqv(k2, b)))
+            ra, rb = sum(tt[a]) / len(tt[a]), sum(tt[b]) / len(tt[b])
+            da, db = sum(td[kb_a]) / len(td[kb_a]), sum(td[kb_b]) / len(td[kb_b])
+            inverted = (ra < rb and not np.isclose(ra, rb) and da > db and not np.isclose(da, db)) or (ra > rb and not np.isclose(ra, rb) and da < db and not np.isclose(da, db))
+            ctx.require(not inverted, "C02.dev-rank-inversion", f"labels {a!r},{b!r}: target rates {ra:.3f},{rb:.3f} on X but {da:.3f},{db:.3f} on X_dev")
 
 
 def check_c09(ctx, cls, obj, col, n, n_nan, params):
@@ -397,13 +444,44 @@ def _rate(g):
     return sum(g) / len(g)
 
 
+def _viab(gy, total, mfm, gy_dev=None, total_dev=None, nan_alone_last=False):
+    """(strict, weak) viability of a grouping per the property text.  The two readings differ where the
+    statement is silent: adjacency of a NaN-only last group, and how target-rate ties of different groups
+    are ranked between train and dev."""
+    def side(groups, tot):
+        if any(len(g) == 0 for g in groups):
+            return False, False
+        if any(len(g) / tot < mfm for g in groups):
+            return False, False
+        rates = [_rate(g) for g in groups]
+        strict = weak = True
+        for i, (a, b) in enumerate(zip(rates, rates[1:])):
+            if np.isclose(a, b):
+                strict = False
+                if not (nan_alone_last and i == len(rates) - 2):
+                    weak = False
+        return strict, weak
+
+    s, w = side(gy, total)
+    if gy_dev is not None:
+        sd, wd = side(gy_dev, total_dev)
+        s, w = s and sd, w and wd
+        if w:
+            rt, rd = [_rate(g) for g in gy], [_rate(g) for g in gy_dev]
+            n = len(rt)
+            for i in range(n):
+                for j in range(i + 1, n):
+                    lt_t, gt_t = rt[i] < rt[j] and not np.isclose(rt[i], rt[j]), rt[i] > rt[j] and not np.isclose(rt[i], rt[j])
+                    lt_d, gt_d = rd[i] < rd[j] and not np.isclose(rd[i], rd[j]), rd[i] > rd[j] and not np.isclose(rd[i], rd[j])
+                    if (lt_t and gt_d) or (gt_t and lt_d):
+                        s = w = False  # strict inversion
+                    elif (lt_t, gt_t) != (lt_d, gt_d):
+                        s = False  # a tie on one sample only: ranking ambiguous
+    return s, w
+
+
 def _viable(groups_y, total, mfm):
-    if any(len(g) == 0 for g in groups_y):
-        return False
-    if any(len(g) / total < mfm for g in groups_y):
-        return False
-    rates = [_rate(g) for g in groups_y]
-    return not any(np.isclose(a, b) for a, b in zip(rates, rates[1:]))
+    return _viab(groups_y, total, mfm)[0]
 
 
 def _contig(k, lo, hi):
@@ -415,23 +493,27 @@ def _contig(k, lo, hi):
     return out
 
 
-def check_c01(ctx, cls, obj, X, y, xs, n, n_nan, params, kept, col):
-    """Brute force over the base buckets of an independently fitted Discretizer (same parameters)."""
+def check_c01(ctx, cls, obj, X, y, xs, n, n_nan, params, kept, col, base=None, dev=None):
+    """Brute force over the base buckets of an independently fitted Discretizer (same parameters).
+    base: callable returning that fitted Discretizer (default: quantitative feature f);
+    dev: optional (X_dev, y_dev)."""
     from AutoCarver.discretizers import Discretizer
 
     sort_by = params.get("sort_by", "kruskal")
     max_n_mod = params.get("max_n_mod", 5)
     dropna = params.get("dropna", True)
     mfm = obj.min_freq_mod
-    d = Discretizer(quantitative_features=["f"], qualitative_features=[], min_freq=params["min_freq"], copy=True)
-    d.fit(X, y)
+    if base is None:
+        d = Discretizer(quantitative_features=["f"], qualitative_features=[], min_freq=params["min_freq"], copy=True)
+        d.fit(X, y)
+    else:
+        d = base()
     if "f" not in d.features:
         ctx.require(not kept, "C01.kept-without-base", "carver kept a feature the base Discretizer dropped")
         return
     base_col = list(d.transform(X)["f"])
-    base_labels = [l for l in d.labels_per_values["f"].values()]
     order = []
-    for l in base_labels:
+    for l in d.labels_per_values["f"].values():
         if l not in order:
             order.append(l)
     nn_order = [l for l in order if l != NAN]
@@ -442,66 +524,73 @@ def check_c01(ctx, cls, obj, X, y, xs, n, n_nan, params, kept, col):
     nan_rows = [i for i in range(len(base_col)) if base_col[i] == NAN]
     k = len(nn_order)
     nn_total = sum(len(b) for b in buckets)
-    best1 = []
-    if k >= 2 and (len(order) > 1):
-        cands = []
-        for p in _contig(k, 2, max_n_mod):
-            gy = [[v for i in g for v in buckets[i]] for g in p]
-            if _viable(gy, nn_total, mfm):
+    dbuckets = dnan = None
+    if dev is not None:
+        Xd, yd = dev
+        dcol = list(d.transform(Xd)["f"])
+        ydl = list(yd)
+        dbuckets = [[ydl[i] for i in range(len(dcol)) if dcol[i] == l] for l in nn_order]
+        dnan = [ydl[i] for i in range(len(dcol)) if dcol[i] == NAN]
+    dn_total = sum(len(b) for b in dbuckets) if dbuckets is not None else None
+
+    def evaluate(cands):
+        """cands: list of (payload, gy, gy_dev, total, total_dev, nan_alone_last) -> acceptable payloads (+None)"""
+        scored = []
+        for payload, gy, gyd, tot, totd, nal in cands:
+            s_, w_ = _viab(gy, tot, mfm, gyd, totd, nal)
+            if w_:
                 m = _measure(cls, sort_by, gy)
                 if m == m:
-                    cands.append((m, p))
-        if cands:
-            top = max(m for m, _ in cands)
-            best1 = [p for m, p in cands if np.isclose(m, top, rtol=1e-9, atol=1e-12)]
+                    scored.append((m, payload, s_))
+        strict = [m for m, _, s_ in scored if s_]
+        top = max(strict) if strict else None
+        acc = [pl for m, pl, s_ in scored if top is None or m >= top - 1e-9]
+        return acc, (top is None)
+
+    c1 = []
+    if k >= 2:
+        for p in _contig(k, 2, max_n_mod):
+            gy = [[v for i in g for v in buckets[i]] for g in p]
+            gyd = [[v for i in g for v in dbuckets[i]] for g in p] if dbuckets is not None else None
+            c1.append((p, gy, gyd, nn_total, dn_total, False))
+    acc1, none_ok1 = evaluate(c1)
     expected_parts = []
-    if best1:
-        for p in best1:
-            if dropna and nan_rows:
-                # stage 2 over the stage-1 groups
-                g1 = p
-                c2 = []
-                for q in _contig(len(g1), 2, max_n_mod):
-                    merged = [[i for gi in grp for i in g1[gi]] for grp in q]
-                    for pos in range(len(merged) + 1):
-                        if pos == len(merged) and len(merged) >= max_n_mod:
-                            continue
-                        gy = [[v for i in g for v in buckets[i]] for g in merged]
-                        rows = [[r for i in g for r in rows_of[i]] for g in merged]
-                        if pos == len(merged):
-                            gy, rows = gy + [list(nan_y)], rows + [list(nan_rows)]
-                            strict_ok = _viable(gy, nn_total + len(nan_y), mfm)
-                            weak_ok = _viable(gy[:-1], nn_total + len(nan_y), mfm) and len(nan_y) / (nn_total + len(nan_y)) >= mfm
-                        else:
-                            gy = [g + (list(nan_y) if i == pos else []) for i, g in enumerate(gy)]
-                            rows = [g + (list(nan_rows) if i == pos else []) for i, g in enumerate(rows)]
-                            strict_ok = weak_ok = _viable(gy, nn_total + len(nan_y), mfm)
-                        if weak_ok:
-                            m = _measure(cls, sort_by, gy)
-                            if m == m:
-                                c2.append((m, sorted(sorted(r) for r in rows), strict_ok))
-                if c2:
-                    strict = [c for c in c2 if c[2]]
-                    top_strict = max((m for m, _, s in strict), default=None)
-                    for m, part, s in c2:
-                        # acceptable results: any weakly-viable placement at least as good as the best strictly-viable one
-                        if top_strict is None or m >= top_strict - 1e-12:
-                            expected_parts.append(part)
-                    if not strict:
-                        expected_parts.append(None)  # dropping is acceptable when nothing is strictly viable
-                else:
-                    expected_parts.append(None)
-            else:
-                part = [[r for i in g for r in rows_of[i]] for g in p]
-                if nan_rows:
-                    part = part + [list(nan_rows)]
-                expected_parts.append(sorted(sorted(r) for r in part))
-    else:
+    if none_ok1:
         expected_parts.append(None)
+    for p in acc1:
+        if dropna and nan_rows:
+            g1 = p
+            c2 = []
+            for q in _contig(len(g1), 2, max_n_mod):
+                merged = [[i for gi in grp for i in g1[gi]] for grp in q]
+                for pos in range(len(merged) + 1):
+                    if pos == len(merged) and len(merged) >= max_n_mod:
+                        continue
+                    gy = [[v for i in g for v in buckets[i]] for g in merged]
+                    gyd = [[v for i in g for v in dbuckets[i]] for g in merged] if dbuckets is not None else None
+                    rows = [[r for i in g for r in rows_of[i]] for g in merged]
+                    if pos == len(merged):
+                        gy, rows = gy + [list(nan_y)], rows + [list(nan_rows)]
+                        gyd = gyd + [list(dnan)] if gyd is not None else None
+                    else:
+                        gy = [g + (list(nan_y) if i == pos else []) for i, g in enumerate(gy)]
+                        rows = [g + (list(nan_rows) if i == pos else []) for i, g in enumerate(rows)]
+                        gyd = [g + (list(dnan) if i == pos else []) for i, g in enumerate(gyd)] if gyd is not None else None
+                    c2.append((sorted(sorted(r) for r in rows), gy, gyd, nn_total + len(nan_y), (dn_total + len(dnan)) if gyd is not None else None, pos == len(merged)))
+            acc2, none_ok2 = evaluate(c2)
+            expected_parts += acc2
+            if none_ok2:
+                expected_parts.append(None)
+        else:
+            part = [[r for i in g for r in rows_of[i]] for g in p]
+            if nan_rows:
+                part = part + [list(nan_rows)]
+            expected_parts.append(sorted(sorted(r) for r in part))
     got = row_partition(col) if kept else None
     ok = any((e is None and got is None) or (e is not None and got is not None and e == got) for e in expected_parts)
     ctx.require(ok, "C01.api-not-optimal" if got is not None else "C01.api-dropped-although-viable",
-                f"{cls}: fitted row partition {got} is not among the optimal viable groupings {expected_parts} of the base buckets {rows_of} (+NaN rows {nan_rows}); y={yl}, min_freq_mod={mfm}, max_n_mod={max_n_mod}, sort_by={sort_by}")
+                f"{cls}: fitted row partition {got} is not among the optimal viable groupings {expected_parts[:6]} of the base buckets {rows_of} (+NaN rows {nan_rows}); y={yl}, "
+                f"dev={'yes' if dev is not None else 'no'}, min_freq_mod={mfm}, max_n_mod={max_n_mod}, sort_by={sort_by}")
 
 
 def check_c06(ctx, cls, obj, X, col, kept, is_carver):
@@ -569,7 +658,7 @@ def check_c16(ctx, cls, obj, X, col, kept, is_carver, companions):
 
 
 # ----------------------------------------------------------------------------- jobs
-def jobs(tier, props, classes, *, companions=False, ns=None, param_grid=None, nan_opts=(0, 1), max_pats=None):
+def jobs(tier, props, classes, *, companions=False, ns=None, param_grid=None, nan_opts=(0, 1), max_pats=None, dev=False):
     quick = tier == "quick"
     out = []
     for cls in classes:
@@ -584,8 +673,12 @@ def jobs(tier, props, classes, *, companions=False, ns=None, param_grid=None, na
                 for params in (param_grid or default_params(cls, quick)):
                     if n_nan == 0 and params.get("dropna") is False:
                         continue
-                    for ypat in pats:
+                    for pi, ypat in enumerate(pats):
                         out.append(dict(cls=cls, n=n, n_nan=n_nan, ypat=ypat, params=params, companions=companions, props=sorted(props)))
+                        if dev and "Carver" in cls and cls != "MulticlassCarver":
+                            # dev sample = the same rows reversed with another target pattern
+                            dpat = pats[(pi * 3 + 1) % len(pats)]
+                            out.append(dict(cls=cls, n=n, n_nan=n_nan, ypat=ypat, params=params, companions=companions, props=sorted(props), dev_ypat=tuple(dpat)))
     return out
 
 
@@ -610,4 +703,128 @@ def obligation(tier, props, name, classes, **kw):
                f"every binary target pattern (sampled beyond 14) / 4 continuous rank patterns; parameter grid {kw.get('param_grid') or 'default (min_freq .5/.25[/.34/.15], max_n_mod 2-4, both sort_by, both output dtypes, dropna T/F)'}",
         outside="more than 5-6 rows; verbose printing; n_jobs>1 (C10)",
         twin_every=11, budget_s=6.0,
+    )
+
+
+# ============================================================================= qualitative / ordinal features end to end
+QCATS = ["m", "c", "x", "a", "k"]
+
+
+def h_fit_qual(ctx, cls, kind, sizes, n_nan, params, props):
+    try:
+        return _h_fit_qual(ctx, cls, kind, sizes, n_nan, params, props)
+    except Violation as v:
+        v.extra = dict(v.extra or {}, cls=cls, feature_kind=kind)
+        raise
+
+
+def _h_fit_qual(ctx, cls, kind, sizes, n_nan, params, props):
+    """Complete carver fit on a qualitative (categorical) or ordinal feature: category sizes concrete,
+    positives per category solver-chosen (target-rate ties reachable)."""
+    from AutoCarver import BinaryCarver, ContinuousCarver
+    from AutoCarver.discretizers import Discretizer
+
+    k = len(sizes)
+    cats = QCATS[:k]
+    col, ycol = [], []
+    for c, sz in zip(cats, sizes):
+        pos = ctx.choose(f"pos_{c}", sz + 1)
+        col += [c] * sz
+        ycol += [1] * pos + [0] * (sz - pos)
+    col += [np.nan] * n_nan
+    nanpos = ctx.choose("pos_nan", n_nan + 1) if n_nan else 0
+    ycol += [1] * nanpos + [0] * (n_nan - nanpos)
+    if not (0 < sum(ycol) < len(ycol)):
+        from symx import Infeasible
+        raise Infeasible()
+    X = pd.DataFrame({"f": pd.Series(col, dtype=object)})
+    X.index = [10 + 2 * i for i in range(len(col))]
+    if cls == "ContinuousCarver":
+        y = pd.Series([v + 0.001 * (i % 3) for i, v in enumerate(ycol)], index=X.index)
+    else:
+        y = pd.Series(ycol, index=X.index)
+    fkw = dict(ordinal_features=["f"], values_orders={"f": list(cats)}) if kind == "ord" else dict(qualitative_features=["f"])
+    p = dict(params)
+    if cls == "ContinuousCarver":
+        p.pop("sort_by", None)
+        obj = ContinuousCarver(copy=True, **fkw, **p)
+    else:
+        obj = BinaryCarver(copy=True, **fkw, **p)
+    snapX = snapshot_frame(X)
+    try:
+        obj.fit(X, y)
+    except Violation:
+        raise
+    except AssertionError as e:
+        return dict(counters={"assertion": 1}, sample=dict(cls=cls, kind=kind, sizes=sizes, outcome="AssertionError", msg=str(e)[:80]), result=dict(outcome="AssertionError"))
+    except Exception as e:
+        import traceback
+        ctx.require(False, "C08.internal-error", f"{cls}.fit on a {kind} feature raised {type(e).__name__}: {str(e)[:160]} | {traceback.format_exc(limit=-2)[-300:]} (sizes {sizes}, y={ycol})")
+    kept = "f" in obj.features
+    feats = set(obj.features)
+    for attr in ("values_orders", "input_dtypes", "labels_per_values", "features_dropna"):
+        ctx.require(set(getattr(obj, attr).keys()) == feats, "C08.attributes-incoherent", f"{cls}.{attr} keys {sorted(getattr(obj, attr).keys())} != features {sorted(feats)}")
+    try:
+        out = obj.transform(X)
+    except Exception as e:
+        ctx.require(False, "C08.transform-after-fit", f"{cls}.transform(X_train) raised {type(e).__name__}: {str(e)[:160]}")
+    ctx.require(frame_unchanged(X, snapX), "C07.input-mutated", f"{cls}: fit/transform modified the caller's X")
+    colo = list(out["f"])
+    if not kept:
+        ctx.require(col_equal(colo, list(X["f"])), "C08.dropped-feature-touched", "a dropped feature's column was modified by transform")
+    else:
+        vo = obj.values_orders["f"]
+        well_formed_partition(ctx, vo, "C08.partition", f"{cls}.values_orders['f']")
+        known = [v for l in vo for v in vo.content[l]]
+        for c in cats:
+            ctx.require(c in known, "C08.coverage", f"training value {c!r} not covered by values_orders {dict(vo.content)}")
+        if kind == "ord":
+            # ordinal groups are contiguous runs of the ranking, in ranking order (C03)
+            pos = {c: i for i, c in enumerate(cats)}
+            firsts = []
+            for l in vo:
+                idx = sorted(pos[v] for v in vo.content[l] if v in pos)
+                if idx:
+                    ctx.require(idx == list(range(idx[0], idx[0] + len(idx))), "C03.ordinal-not-contiguous", f"group {vo.content[l]} is not a contiguous run of the ranking {cats}")
+                    firsts.append(idx[0])
+            ctx.require(firsts == sorted(firsts), "C03.ordinal-order", f"groups out of ranking order: {dict(vo.content)}")
+        if "C02" in props:
+            check_c02(ctx, obj, colo, len(col) - n_nan, n_nan, list(y if cls != "ContinuousCarver" else y), params)
+        if "C16" in props:
+            s = obj.summary()
+            listed = [v for r in s.reset_index().to_dict("records") for v in r["content"]]
+            exp_known = [v for v in known if isinstance(v, str) and v != "__OTHER__" and not (v == NAN and not obj.dropna)]
+            ctx.require(sorted(listed) == sorted(exp_known), "C16.summary-partition", f"summary lists {sorted(listed)}, known values {sorted(exp_known)}")
+            for r in s.reset_index().to_dict("records"):
+                for v in r["content"]:
+                    ctx.require(r["label"] == obj.labels_per_values["f"][v], "C16.summary-label", f"summary says {v!r} -> {r['label']!r}, transform uses {obj.labels_per_values['f'][v]!r}")
+    if "C01" in props:
+        def base():
+            d = Discretizer(quantitative_features=[], qualitative_features=[] if kind == "ord" else ["f"], min_freq=params["min_freq"], copy=True,
+                            **(dict(ordinal_features=["f"], values_orders={"f": list(cats)}) if kind == "ord" else {}))
+            d.fit(X, y)
+            return d
+        check_c01(ctx, cls, obj, X, y, None, len(col) - n_nan, n_nan, params, kept, colo, base=base)
+    if "C06" in props:
+        check_c06(ctx, cls, obj, X, colo, kept, True)
+    return dict(counters={"fitted": 1, "kept": int(kept)}, sample=dict(cls=cls, kind=kind, sizes=sizes, y=ycol, kept=kept, groups=[list(obj.values_orders["f"].content[l]) for l in obj.values_orders["f"]] if kept else None),
+                result=dict(kept=kept, partition=row_partition(colo) if kept else None))
+
+
+def obligation_qual(tier, props, name, classes=("BinaryCarver", "ContinuousCarver")):
+    quick = tier == "quick"
+    jobs = []
+    for cls in classes:
+        for kind in ("qual", "ord"):
+            for sizes in ([(3, 3, 2), (2, 2, 2, 2)] if quick else [(3, 3, 2), (2, 2, 2, 2), (4, 1, 3), (2, 3, 2, 3)]):
+                for n_nan in (0, 2):
+                    for params in [dict(min_freq=0.2, sort_by="cramerv", max_n_mod=3, output_dtype="str", dropna=True)] + ([dict(min_freq=0.25, sort_by="tschuprowt", max_n_mod=2, output_dtype="float", dropna=False)] if (n_nan or not quick) else []):
+                        if n_nan == 0 and params["dropna"] is False:
+                            continue
+                        jobs.append(dict(cls=cls, kind=kind, sizes=sizes, n_nan=n_nan, params=params, props=sorted(props)))
+    return Obligation(
+        name=name, harness=h_fit_qual, jobs=jobs,
+        encodes=ENC_CARVER + ["Discretizer.fit", "QualitativeDiscretizer._prepare_data/fit", "CategoricalDiscretizer.fit", "OrdinalDiscretizer.fit", "find_common_modalities", "BaseDiscretizer._transform_qualitative/_check_new_values"],
+        bounds=f"categorical and ordinal (non-alphabetical ranking) features with 3-4 categories of concrete sizes, positives per category solver-chosen (ties reachable), 0/2 missing rows, {2 if quick else 4} size profiles",
+        outside="more categories; symbolic category text", twin_every=5, budget_s=6.0,
     )
